@@ -1173,6 +1173,9 @@ CASES = [
      {"call:process_message": "err:ValidationError/CannotDecryptOwnMessage", "variant:ContentType": "variant:Application", "call:pending_commit": "none",
       "call:find_processed_message_by_event_id": "ok:some", "variant:ProcessedMessageState": "variant:Created",
       "call:find_message_by_event_id": "ok:some"}),
+    (30, "process_message:own_commit_echo", "process_message", "MDK", "ok:Commit",
+     {"call:process_message": "err:ValidationError/CannotDecryptOwnMessage", "variant:ContentType": "variant:Commit", "call:pending_commit": "none",
+      "call:find_processed_message_by_event_id": "ok:some", "variant:ProcessedMessageState": "variant:ProcessedCommit"}),
     (12, "process_welcome", "process_welcome", "MDK", "ok",
      {"call:find_processed_welcome_by_event_id": "ok:none", "call:find_welcome_by_event_id": "ok:none"}),
     (13, "process_welcome:known_rumor", "process_welcome", "MDK", "ok",
